@@ -13,6 +13,7 @@ import (
 	"time"
 
 	"github.com/boombuler/barcode"
+	"github.com/boombuler/barcode/aztec"
 	"pgregory.net/rapid"
 	"verif/enc"
 	"verif/ref"
@@ -436,6 +437,15 @@ func TestC16Bursts(t *testing.T) {
 			}
 		}
 	}
+	// concurrent calls whose inputs are adjacent sub-slices of ONE caller-owned buffer (records of a file read into
+	// memory): an encoder that writes through its input slice, or past its end into spare capacity, races with the
+	// neighbour's call and changes the neighbour's input
+	for round := 0; round < bursts; round++ {
+		checkSharedInput(t, SharedInputCase{Round: round, Records: 64, RecordLen: 24})
+		st.Eval()
+		st.NonTrivial(H("shared-input", round))
+		st.Class("concurrent encodes of adjacent sub-slices of one input buffer")
+	}
 	st.Sample("burst", map[string]any{"goroutines": n, "family": "qr", "bursts": bursts})
 }
 
@@ -571,3 +581,52 @@ func TestC16ColdStart(t *testing.T) {
 		t.Fatalf("%s", ct.first)
 	}
 }
+
+// SharedInputCase: Records goroutines call aztec.Encode concurrently, each on its own RecordLen-byte sub-slice of one buffer.
+type SharedInputCase struct {
+	Round     int `json:"round"`
+	Records   int `json:"records"`
+	RecordLen int `json:"record_len"`
+}
+
+const sharedInputAlphabet = "ABCDEFGHIJ0123456789 abc.,:\r\n\x80"
+
+func checkSharedInput(t TB, c SharedInputCase) {
+	noteCase("C16", "shared-input", c)
+	recLen, recs := c.RecordLen, c.Records
+	shared := make([]byte, recLen*recs)
+	for i := range shared {
+		shared[i] = sharedInputAlphabet[(i*7+i/recLen+c.Round)%len(sharedInputAlphabet)]
+	}
+	orig := append([]byte(nil), shared...)
+	want := make([]string, recs)
+	for i := range want {
+		rec := append([]byte(nil), orig[i*recLen:(i+1)*recLen]...)
+		bc, err := aztec.Encode(rec, 23, 0)
+		want[i] = enc.Fingerprint(bc, err, nil)
+	}
+	got := make([]string, recs)
+	start := make(chan struct{})
+	var wg sync.WaitGroup
+	for i := 0; i < recs; i++ {
+		wg.Add(1)
+		go func(i int) {
+			defer wg.Done()
+			<-start
+			bc, err := aztec.Encode(shared[i*recLen:(i+1)*recLen], 23, 0) // capacity reaches into the following records
+			got[i] = enc.Fingerprint(bc, err, nil)
+		}(i)
+	}
+	close(start)
+	wg.Wait()
+	for i := range got {
+		if got[i] != want[i] {
+			failf(t, "C16", "shared-input", c, "record %d of a shared input buffer, encoded while its neighbours were being encoded, gives a different barcode than the same bytes alone", i)
+		}
+	}
+	if string(shared) != string(orig) {
+		failf(t, "C16", "shared-input", c, "the callers' shared input buffer was modified by the concurrent encodes")
+	}
+}
+
+func init() { register("shared-input", func(t TB, c SharedInputCase) { checkSharedInput(t, c) }) }
